@@ -7,7 +7,7 @@ RETRY_TIMING = True
 JOBS = 16
 UNOPTIMISED_BUILD = True
 ENTRIES = ["addr", "addrnew", "mbox", "mboxes", "mboxname", "ctype", "cdisp", "hparse", "date", "dateparse", "url", "aurl", "resp", "hval", "hname",
-           "bodys", "bodyb", "bodyenc", "msg", "msgto", "msgnofrom", "msgid", "boundary", "attach", "dkim", "dkimbin", "dkimkey", "json", "jsonout", "sinfo",
+           "bodys", "bodyb", "bodyenc", "msg", "msgto", "sendmailerr", "msgnofrom", "msgid", "boundary", "attach", "dkim", "dkimbin", "dkimkey", "json", "jsonout", "sinfo",
            "clientid", "creds", "rrclose", "arrclose"]
 CORRESPONDENCE = ("every model function of lean/LettreVerif/Model is total (accepted by Lean's termination checker, no partial definitions); the "
                   "harness runs the corresponding public entry points of lettre in threads with 2 MiB stacks under catch_unwind, optimised and "
@@ -49,6 +49,7 @@ TEMPLATES = {
     "bodyenc": ["hello\r\n", "ünï", "\x00"],
     "msg": ["subject / body", "ünï\nline"],
     "msgto": ["x" * 40],
+    "sendmailerr": ["boom: rejected\n", "x" + "\u00e9" * 600, "\u20ac" * 400 + "y", "\xff\xfe", ""],
     "msgnofrom": ["x"],
     "msgid": ["<id@host>", "not an id"],
     "boundary": ["simple", "with space", "q\"uote", "x" * 71, ""],
